@@ -209,7 +209,7 @@ func init() {
 		Gen: func(t *rapid.T, thorough bool) *Script {
 			o := mixedOpts(thorough)
 			o.MIG = false
-			o.Faults = false
+			o.Faults = chance(t, "faulty", 40) // failing bind / evict API calls in the middle of a commit
 			return GenScript(t, "C02", "fraction-heavy", o)
 		},
 		Oracles: func() []Oracle { return []Oracle{&CapacityOracle{prop: "C02"}} },
